@@ -124,3 +124,117 @@ func ruleRecoverOrder(c *Ctx) {
 	c.minInstances("committed-id membership tests in the open cone", nT, 1)
 	c.minInstances("committed-id insertions in the open cone", nI, 1)
 }
+
+// ---------------------------------------------------------------------------
+// R-ENTRY-PRESENT: list, set and sorted-set records are replayed from their payload
+// (Record.E.Key / E.Value) on reopen, in whatever index mode the directory was written: the
+// commit-time appliers accept them in every mode. So a Record built by recovery may have a nil
+// entry only when it is a key/value record (which can be indexed by position alone). A nil
+// entry on a non-KV record makes the open-time applier fail Open (or dereference nil) on a
+// directory produced by successful calls, and makes the two RAM index modes disagree.
+
+func ruleEntryPresent(c *Ctx) {
+	open := c.P.MustFunc("Open")
+	kv, ok := constIntVal(c.P.Const("DataStructureBPTree"))
+	if !ok {
+		c.undecided("DataStructureBPTree", "constant", "", "constant not found")
+		return
+	}
+	n := 0
+	perFn := map[*ssa.Function]int{}
+	for _, f := range c.P.ModCone(open) {
+		dsEq := eqEdges(f, true, func(x, y ssa.Value) bool {
+			if !isFieldLoad(x, "MetaData", "ds") {
+				return false
+			}
+			k, ok := constInt(y)
+			return ok && k == kv
+		})
+		isDsEdge := func(b *ssa.BasicBlock, si int) bool {
+			for _, e := range dsEq {
+				if e.b == b && e.si == si {
+					return true
+				}
+			}
+			return false
+		}
+		instrs(f, func(in ssa.Instruction) {
+			st, ok := in.(*ssa.Store)
+			if !ok {
+				return
+			}
+			fa, ok := st.Addr.(*ssa.FieldAddr)
+			if !ok {
+				return
+			}
+			fv := fieldVarOf(fa)
+			if fv == nil || fv.Name() != "E" || !namedIs(derefT(fa.X.Type()), "Record") {
+				return
+			}
+			n++
+			perFn[f]++
+			c.touch(f)
+			detail := fmt.Sprintf("Record.E store #%d: a nil entry only on key/value records", perFn[f])
+			bad := ""
+			und := ""
+			var visit func(v ssa.Value, viaBlock *ssa.BasicBlock, viaSucc int, depth int)
+			seen := map[ssa.Value]bool{}
+			visit = func(v ssa.Value, viaBlock *ssa.BasicBlock, viaSucc int, depth int) {
+				if depth > 6 {
+					und = "value flow too deep"
+					return
+				}
+				switch x := v.(type) {
+				case *ssa.Phi:
+					if seen[x] {
+						return
+					}
+					seen[x] = true
+					for i, e := range x.Edges {
+						pred := x.Block().Preds[i]
+						si := 0
+						for k, s := range pred.Succs {
+							if s == x.Block() {
+								si = k
+							}
+						}
+						visit(e, pred, si, depth+1)
+					}
+				case *ssa.Alloc, *ssa.Parameter:
+					// a fresh entry, or the caller's record (obligation on the callers' own stores)
+				case *ssa.Const:
+					if !isNilConst(x) {
+						return
+					}
+					// where does the nil come from: the edge (viaBlock, viaSucc) or the store's own block
+					at := st.Block()
+					if viaBlock != nil {
+						if isDsEdge(viaBlock, viaSucc) || edgesDominate(f, dsEq, viaBlock) {
+							return
+						}
+						bad = "a nil entry reaches this record on a path that is not restricted to ds == DataStructureBPTree (edge out of block " + fmt.Sprint(viaBlock.Index) + ")"
+						return
+					}
+					if !edgesDominate(f, dsEq, at) {
+						bad = "a nil entry is stored without ds == DataStructureBPTree being established"
+					}
+				case *ssa.UnOp, *ssa.Call, *ssa.Extract, *ssa.FieldAddr, *ssa.Field:
+					// loaded from an existing record / produced by a decoder: entries read from disk are non-nil behind the nil test of the scan loop
+				default:
+					und = fmt.Sprintf("cannot classify %T", v)
+				}
+			}
+			visit(st.Val, nil, 0, 0)
+			switch {
+			case bad != "":
+				c.bad(fnName(f), detail, c.P.ipos(st), bad+": a list/set/sorted-set record is rebuilt without its payload, so the open-time applier returns an error (or dereferences nil) and Open fails on a directory written by successful calls in this index mode")
+			case und != "":
+				c.undecided(fnName(f), detail, c.P.ipos(st), und)
+			default:
+				c.ok(fnName(f), detail, c.P.ipos(st), "")
+			}
+		})
+	}
+	c.Sites += n
+	c.minInstances("stores to Record.E in the open cone", n, 1)
+}
